@@ -841,6 +841,11 @@ def main():
     except ImportError:
         pass
     try:
+        import rs2lean_locks
+        gens += rs2lean_locks.generators(args.repo)
+    except ImportError:
+        pass
+    try:
         import rs2lean_dispatch
         gens += rs2lean_dispatch.generators(args.repo)
     except ImportError:
